@@ -220,6 +220,10 @@ func (vm *Vm) runErrCheck(ctx context.Context, b []byte, err error) ([]byte, err
 		vm.catching = false
 		return b, err
 	}
+	if location, _ := vm.st.Where(); location == "_catch" {
+		// a load failing inside the catch node cannot be caught by moving there once more
+		return b, err
+	}
 
 	vm.catching = true
 	b = NewLine(nil, MOVE, []string{"_catch"}, nil, nil)
